@@ -234,7 +234,12 @@ fn block_from_hex(s: &str) -> BlockView {
     packed::Block::from_compatible_slice(&bytes).expect("block").into_view()
 }
 
+static KINDS: std::sync::Mutex<Vec<&'static str>> = std::sync::Mutex::new(vec![]);
+
 fn point_hook(kind: &'static str) {
+    if let Ok(mut k) = KINDS.lock() {
+        k.push(kind);
+    }
     ckb_db::verif::point(kind)
 }
 
@@ -244,6 +249,9 @@ pub fn freezerun_main(args: &[String]) -> i32 {
     let dir = Path::new(&args[1]);
     let crash_at: u64 = args[2].parse().unwrap();
     let _ = ckb_freezer::VERIF_POINT.set(point_hook);
+    if let Some(sz) = std::env::var("VERIF_FREEZER_FILE_SIZE").ok().and_then(|s| s.parse::<u64>().ok()) {
+        ckb_freezer::VERIF_MAX_FILE_SIZE.store(sz, std::sync::atomic::Ordering::SeqCst);
+    }
     let cons = consensus(&WorldOpts::default());
     set_time(time_for_height(1));
     let node = match Node::boot(dir, &freezing_opts(&cons, dir)) {
@@ -270,12 +278,16 @@ pub fn freezerun_main(args: &[String]) -> i32 {
         }
     }
     let before = ckb_db::verif::POINTS.load(std::sync::atomic::Ordering::SeqCst);
+    KINDS.lock().unwrap().clear();
     if crash_at > 0 {
         ckb_db::verif::CRASH_AT.store(before + crash_at, std::sync::atomic::Ordering::SeqCst);
     }
     let r = node.shared.verif_freeze_once();
     let after = ckb_db::verif::POINTS.load(std::sync::atomic::Ordering::SeqCst);
     println!("POINTS {} RESULT {:?}", after - before, r.map_err(|e| e.to_string()));
+    // positions (1-based, within the pass) of the freezer's own points; database writes are not named
+    let kinds = KINDS.lock().unwrap().clone();
+    println!("FREEZER-POINT-KINDS {}", kinds.join(","));
     use std::io::Write;
     let _ = std::io::stdout().flush();
     unsafe extern "C" {
@@ -334,6 +346,12 @@ pub fn run(ctx: &Ctx) -> Report {
         let only: Option<(usize, u64)> = replay.as_ref().map(|v| (v["deliver"].as_u64().unwrap() as usize, v["crash_at"].as_u64().unwrap()));
         if let Err(e) = crash_family(ctx, &cons, &u, &dl, only, &mut report) {
             report.machinery_errors.push(format!("crash family: {e}"));
+        }
+    }
+    // ---------------- power-loss family
+    if replay.is_none() || want_family.as_deref() == Some("power-loss") {
+        if let Err(e) = power_loss_family(ctx, &cons, &u, &dl, replay.as_ref(), &mut report) {
+            report.machinery_errors.push(format!("power-loss family: {e}"));
         }
     }
     report
@@ -531,4 +549,275 @@ fn crash_family(ctx: &Ctx, cons: &Consensus, u: &Universe, dl: &[(String, BlockV
         twin_same.shutdown();
     }
     Ok(())
+}
+
+// ---------------------------------------------------------------------------------------
+// Power-loss family.  The crash family kills the process: whatever it had written is still in the
+// files.  A machine crash also loses what no completed fsync covers.  The child runs under an
+// LD_PRELOAD interposer that logs every successful fsync / fdatasync with the file's size at that
+// moment; after the child has been killed at a point of the pass (or has finished it), every
+// freezer file whose final size exceeds its size at its last logged fsync has a tail that may be
+// gone.  Every subset of those files is cut back to its last synced size (a never-synced newest
+// data file may also be missing), plus each single file to the middle of its unsynced tail; the
+// database directory is left as the child left it (the first wipe-out batch is a synced write, and
+// kernel write-back may well have flushed the write-ahead log before the freezer's pages).  The
+// freezer's data-file limit is lowered so that a pass rolls over several times.
+
+pub const POWER_LOSS_FILE_SIZE: u64 = 1500;
+
+fn fsynclog_so() -> Result<std::path::PathBuf, String> {
+    let p = std::env::var("VERIF_FSYNCLOG_SO").map(std::path::PathBuf::from).unwrap_or_else(|_| std::path::PathBuf::from("/verif/harness/target/fsynclog.so"));
+    if p.is_file() { Ok(p) } else { Err(format!("{} not built (bin/check builds it from harness/fsynclog.c)", p.display())) }
+}
+
+fn run_child_logged(exe: &Path, spec: &Path, dir: &Path, crash_at: u64, log: &Path) -> Result<(i32, u64, String), String> {
+    let _ = std::fs::remove_file(log);
+    let out = Command::new(exe)
+        .arg("freezerun")
+        .arg(spec)
+        .arg(dir)
+        .arg(crash_at.to_string())
+        .env("LD_PRELOAD", fsynclog_so()?)
+        .env("FSYNCLOG", log)
+        .env("VERIF_FREEZER_FILE_SIZE", POWER_LOSS_FILE_SIZE.to_string())
+        .output()
+        .map_err(|e| e.to_string())?;
+    let code = out.status.code().unwrap_or(-1);
+    let so = String::from_utf8_lossy(&out.stdout).to_string();
+    let points = so.lines().find_map(|l| l.strip_prefix("POINTS ").and_then(|r| r.split_whitespace().next()).and_then(|p| p.parse().ok())).unwrap_or(0);
+    if code != 0 && code != 86 {
+        return Err(format!("child exit {code}: {}", String::from_utf8_lossy(&out.stderr).lines().rev().take(6).collect::<Vec<_>>().join(" | ")));
+    }
+    Ok((code, points, so))
+}
+
+/// file name -> (size at the last logged fsync, final size) for the freezer directory
+fn durable_and_final(dir: &Path, log: &Path) -> Result<BTreeMap<String, (u64, u64)>, String> {
+    let ancient = dir.join("ancient");
+    let mut synced: BTreeMap<String, u64> = BTreeMap::new();
+    let text = std::fs::read_to_string(log).map_err(|e| format!("fsync log {}: {e} (is the interposer loaded?)", log.display()))?;
+    let mut any = false;
+    for line in text.lines() {
+        let mut it = line.split(' ');
+        let (_, path, size) = (it.next(), it.next().unwrap_or(""), it.next().and_then(|s| s.parse::<u64>().ok()).unwrap_or(0));
+        any = true;
+        let pth = Path::new(path);
+        if pth.starts_with(&ancient) {
+            if let Some(name) = pth.file_name().and_then(|n| n.to_str()) {
+                synced.insert(name.to_string(), size);
+            }
+        }
+    }
+    if !any {
+        return Err("the fsync log is empty: the interposer saw no fsync at all".into());
+    }
+    let mut out = BTreeMap::new();
+    // the freezer keeps its files in a sub-directory of `ancient`
+    fn walk(d: &Path, synced: &BTreeMap<String, u64>, out: &mut BTreeMap<String, (u64, u64)>) {
+        if let Ok(rd) = std::fs::read_dir(d) {
+            for e in rd.flatten() {
+                let p = e.path();
+                if p.is_dir() {
+                    walk(&p, synced, out);
+                } else if let (Some(name), Ok(md)) = (p.file_name().and_then(|n| n.to_str()), e.metadata()) {
+                    if name == "INDEX" || name.starts_with("blk") {
+                        let fin = md.len();
+                        out.insert(name.to_string(), (synced.get(name).cloned().unwrap_or(0).min(fin), fin));
+                    }
+                }
+            }
+        }
+    }
+    walk(&ancient, &synced, &mut out);
+    Ok(out)
+}
+
+fn find_file(root: &Path, name: &str) -> Option<std::path::PathBuf> {
+    for e in std::fs::read_dir(root).ok()?.flatten() {
+        let p = e.path();
+        if p.is_dir() {
+            if let Some(f) = find_file(&p, name) {
+                return Some(f);
+            }
+        } else if p.file_name().and_then(|n| n.to_str()) == Some(name) {
+            return Some(p);
+        }
+    }
+    None
+}
+
+fn copy_dir(from: &Path, to: &Path) -> Result<(), String> {
+    std::fs::create_dir_all(to).map_err(|e| e.to_string())?;
+    for e in std::fs::read_dir(from).map_err(|e| e.to_string())?.flatten() {
+        let p = e.path();
+        let t = to.join(e.file_name());
+        if p.is_dir() {
+            copy_dir(&p, &t)?;
+        } else if e.file_name() != "LOCK" {
+            std::fs::copy(&p, &t).map_err(|e| format!("copy {}: {e}", p.display()))?;
+        } else {
+            let _ = std::fs::File::create(&t);
+        }
+    }
+    Ok(())
+}
+
+/// cut: file name -> Some(new length) or None (file missing)
+type Cuts = BTreeMap<String, Option<u64>>;
+
+fn loss_patterns(files: &BTreeMap<String, (u64, u64)>) -> Vec<Cuts> {
+    let loose: Vec<(&String, u64, u64)> = files.iter().filter(|(_, (d, f))| d < f).map(|(n, (d, f))| (n, *d, *f)).collect();
+    let newest_data = files.keys().filter(|n| n.starts_with("blk")).max().cloned();
+    let mut out: Vec<Cuts> = vec![];
+    let k = loose.len().min(7);
+    // every subset of the files with an unsynced tail is cut back to its synced size
+    for mask in 0u32..(1 << k) {
+        let mut c = Cuts::new();
+        for (i, (n, d, _)) in loose.iter().enumerate().take(k) {
+            if mask & (1 << i) != 0 {
+                c.insert((*n).clone(), Some(*d));
+            }
+        }
+        out.push(c.clone());
+        // ... and the newest data file, if it was never synced, may not exist at all
+        if let Some(nd) = &newest_data {
+            if c.get(nd) == Some(&Some(0)) {
+                let mut c2 = c.clone();
+                c2.insert(nd.clone(), None);
+                out.push(c2);
+            }
+        }
+    }
+    // each single file cut inside its unsynced tail
+    for (n, d, f) in &loose {
+        for l in [(d + f) / 2, f - 1] {
+            if l > *d && l < *f {
+                let mut c = Cuts::new();
+                c.insert((*n).clone(), Some(l));
+                out.push(c);
+            }
+        }
+    }
+    out
+}
+
+fn power_loss_family(ctx: &Ctx, cons: &Consensus, u: &Universe, dl: &[(String, BlockView)], replay: Option<&Value>, report: &mut Report) -> Result<(), String> {
+    let exe = std::env::current_exe().map_err(|e| e.to_string())?;
+    let idx_of = |n: u64| dl.iter().position(|(name, _)| name == &format!("M{n}")).unwrap() + 1;
+    let only: Option<(usize, u64, Cuts)> = replay.map(|v| (v["deliver"].as_u64().unwrap() as usize, v["crash_at"].as_u64().unwrap(), serde_json::from_value(v["cuts"].clone()).unwrap_or_default()));
+    let passes: Vec<usize> = match &only {
+        Some((d, _, _)) => vec![*d],
+        None => vec![idx_of(12), idx_of(16)],
+    };
+    ckb_freezer::VERIF_MAX_FILE_SIZE.store(POWER_LOSS_FILE_SIZE, std::sync::atomic::Ordering::SeqCst);
+    let r = (|| -> Result<(), String> {
+        let mut unit = 0u64;
+        for deliver in passes {
+            let spec = FreezeRunSpec { blocks_hex: dl.iter().map(|(_, b)| hex_block(b)).collect(), deliver };
+            let spec_file = ctx.scratch.join(format!("pspec-{deliver}.json"));
+            std::fs::write(&spec_file, serde_json::to_string(&spec).unwrap()).unwrap();
+            let dir = ctx.scratch.join(format!("pdata-{deliver}"));
+            let work = ctx.scratch.join(format!("pwork-{deliver}"));
+            let log = ctx.scratch.join(format!("fsync-{deliver}.log"));
+            let _ = std::fs::remove_dir_all(&dir);
+            let (code, points, so) = run_child_logged(&exe, &spec_file, &dir, 0, &log)?;
+            if code != 0 || points == 0 {
+                return Err(format!("crash-free child: exit {code}, {points} points: {so}"));
+            }
+            let kinds: Vec<String> = so.lines().find_map(|l| l.strip_prefix("FREEZER-POINT-KINDS ")).map(|k| k.split(',').map(|s| s.to_string()).collect()).unwrap_or_default();
+            let n_files = durable_and_final(&dir, &log)?.keys().filter(|n| n.starts_with("blk")).count();
+            report.max_counter("max_power_loss_data_files", n_files as u64);
+            if n_files < 2 {
+                return Err(format!("the pass at delivery {deliver} did not roll over to a second data file (limit {POWER_LOSS_FILE_SIZE} bytes)"));
+            }
+            // crash points: 0 = the pass ran to completion (freeze, fsync, wipe-out); quick: the points
+            // from the fsync on; thorough: every point
+            let first_sync = kinds.iter().position(|k| k == "freezer-before-sync").map(|p| p as u64 + 1).unwrap_or(1);
+            let ns: Vec<u64> = match &only {
+                Some((_, n, _)) => vec![*n],
+                None => {
+                    let mut v = vec![0u64];
+                    if ctx.tier.is_thorough() {
+                        v.extend(1..=points);
+                    } else {
+                        v.extend(first_sync..=points);
+                    }
+                    v
+                }
+            };
+            let twin = twin_at(ctx, cons, dl, dl.len(), &format!("pl-{deliver}"))?;
+            let twin_same = twin_at(ctx, cons, dl, deliver, &format!("pl-same-{deliver}"))?;
+            let tb_same = battery(twin_same.shared.store(), u, cons, deliver);
+            let tb_full = battery(twin.shared.store(), u, cons, dl.len());
+            for n in ns {
+                // the child is run by every shard that owns at least one pattern of this point; cheap
+                let mut child_done = false;
+                let mut files = BTreeMap::new();
+                let patterns: Vec<Cuts> = match &only {
+                    Some((_, _, c)) => vec![c.clone()],
+                    None => vec![],
+                };
+                let mut pats = patterns;
+                let mut ensure_child = |files: &mut BTreeMap<String, (u64, u64)>, child_done: &mut bool| -> Result<bool, String> {
+                    if *child_done {
+                        return Ok(true);
+                    }
+                    let _ = std::fs::remove_dir_all(&dir);
+                    let (code, _, _) = run_child_logged(&exe, &spec_file, &dir, n, &log)?;
+                    if n > 0 && code != 86 {
+                        return Ok(false);
+                    }
+                    *files = durable_and_final(&dir, &log)?;
+                    *child_done = true;
+                    Ok(true)
+                };
+                if only.is_none() {
+                    // the patterns depend on the files, which depend on the point: run the child once to learn them
+                    if !ensure_child(&mut files, &mut child_done)? {
+                        report.count("children_finished_before_crash_point", 1);
+                        continue;
+                    }
+                    pats = loss_patterns(&files);
+                    report.max_counter("max_power_loss_files_with_unsynced_tail", files.values().filter(|(d, f)| d < f).count() as u64);
+                } else if !ensure_child(&mut files, &mut child_done)? {
+                    return Err("replay: the child finished before the crash point".into());
+                }
+                for cuts in pats {
+                    unit += 1;
+                    if only.is_none() && !ctx.mine(unit) {
+                        continue;
+                    }
+                    if ctx.out_of_time() {
+                        report.cap_hit = Some(format!("wall budget reached in the power-loss family at pass {deliver} point {n}"));
+                        return Ok(());
+                    }
+                    let _ = std::fs::remove_dir_all(&work);
+                    copy_dir(&dir, &work)?;
+                    for (name, cut) in &cuts {
+                        let Some(path) = find_file(&work.join("ancient"), name) else { return Err(format!("file {name} not found in the copy")) };
+                        match cut {
+                            None => std::fs::remove_file(&path).map_err(|e| e.to_string())?,
+                            Some(l) => std::fs::OpenOptions::new().write(true).open(&path).and_then(|f| f.set_len(*l)).map_err(|e| e.to_string())?,
+                        }
+                    }
+                    let label = json!({"family": "power-loss", "deliver": deliver, "crash_at": n, "cuts": cuts, "file_size_limit": POWER_LOSS_FILE_SIZE, "files_synced_and_final": files});
+                    let what = if n == 0 {
+                        format!("a power loss after the completed freeze pass that loses the unsynced tails {cuts:?}")
+                    } else {
+                        format!("a power loss at point {n} of the freeze pass that loses the unsynced tails {cuts:?}")
+                    };
+                    recover_and_judge(cons, u, dl, &work, deliver, "power-loss", &what, &label, &tb_same, &tb_full, cuts.len() == 1 && n == 0, report)?;
+                    report.count("power_loss_images", 1);
+                    if !cuts.is_empty() {
+                        report.count("power_loss_images_with_a_lost_tail", 1);
+                    }
+                }
+            }
+            twin.shutdown();
+            twin_same.shutdown();
+        }
+        Ok(())
+    })();
+    ckb_freezer::VERIF_MAX_FILE_SIZE.store(0, std::sync::atomic::Ordering::SeqCst);
+    r
 }
